@@ -237,6 +237,10 @@ static int process_completed_fragment(sqfs_block_processor_t *proc,
 
 		if (proc->fblk_lookup_error != 0) {
 			err = proc->fblk_lookup_error;
+			/* the table owns the chunk now; it is released
+			   together with the table */
+			if (entry != NULL)
+				chunk = NULL;
 			goto fail;
 		}
 
